@@ -346,6 +346,9 @@ type nativeResult struct {
 	skipped    int
 	mismatches []string
 	results    map[string]*nativeRun // key: witness id
+	// runs of schedule-dependent violation witnesses on the instrumented (preemption-replaying) binary
+	schedResults map[string][]*nativeRun
+	schedErr     string
 }
 
 type nativeRun struct {
@@ -557,6 +560,83 @@ func runNative(overlay map[string][]byte, pkgs map[string]string, reports []*Har
 			}
 		}
 	}
+	// schedule-dependent violations the free-running native run did not show: confirm with a binary built
+	// from an instrumented copy of the package (verifSP before every synchronisation operation), which
+	// holds the goroutine the engine preempted at the recorded operation (instrument.go)
+	var schedJobs []witnessJob
+	for _, rep := range reports {
+		for _, v := range rep.Violations {
+			if !v.Sched || v.Witness == nil || v.Kind == "race" || len(v.Witness.Preempts) == 0 {
+				continue
+			}
+			if ok, _ := nr.confirms(v); ok {
+				continue
+			}
+			schedJobs = append(schedJobs, witnessJob{ID: v.Witness.Notes["vid"], W: v.Witness})
+		}
+	}
+	if len(schedJobs) > 0 {
+		repl2 := map[string]string{}
+		for k, v := range repl {
+			repl2[k] = v
+		}
+		for d := range harnessByPkg {
+			ents, _ := os.ReadDir(filepath.Join(repoDir, d))
+			for _, e := range ents {
+				nm := e.Name()
+				if e.IsDir() || !strings.HasSuffix(nm, ".go") || strings.HasSuffix(nm, "_test.go") {
+					continue
+				}
+				full := filepath.Join(repoDir, d, nm)
+				src, err := os.ReadFile(full)
+				if err != nil {
+					continue
+				}
+				rel, _ := filepath.Rel(repoDir, full)
+				if out := instrumentSource(rel, src); out != nil {
+					n++
+					f := filepath.Join(tmp, fmt.Sprintf("ins%d.go", n))
+					os.WriteFile(f, out, 0644)
+					repl2[full] = f
+				}
+			}
+		}
+		ovb2, _ := json.Marshal(map[string]interface{}{"Replace": repl2})
+		ovf2 := filepath.Join(tmp, "overlay_sched.json")
+		os.WriteFile(ovf2, ovb2, 0644)
+		sjb, _ := json.Marshal(schedJobs)
+		sjf := filepath.Join(tmp, "schedjobs.json")
+		os.WriteFile(sjf, sjb, 0644)
+		for d := range harnessByPkg {
+			bin := filepath.Join(tmp, "s_"+sanitize(d)+".test")
+			cmd := exec.Command("go", "test", "-c", "-vet=off", "-overlay", ovf2, "-o", bin, "./"+d)
+			cmd.Dir = repoDir
+			cmd.Env = env
+			if out, err := cmd.CombinedOutput(); err != nil {
+				nr.schedErr = fmt.Sprintf("instrumented build ./%s: %v\n%s", d, err, tail(string(out), 1500))
+				continue
+			}
+			for try := 0; try < 3; try++ {
+				outf := filepath.Join(tmp, fmt.Sprintf("schedout_%s_%d.jsonl", sanitize(d), try))
+				run := exec.Command(bin, "-test.run", "^TestVerifReplay$", "-test.count=1", "-test.timeout=10m")
+				run.Dir = filepath.Join(repoDir, d)
+				run.Env = append(env, "VERIF_REPLAY="+sjf, "VERIF_OUT="+outf, "VERIF_SKIP=0")
+				run.CombinedOutput()
+				ob, _ := os.ReadFile(outf)
+				for _, line := range strings.Split(string(ob), "\n") {
+					var r nativeRun
+					if strings.TrimSpace(line) == "" || json.Unmarshal([]byte(line), &r) != nil || r.Trace == nil && r.Panic == "" && !r.Timeout {
+						continue
+					}
+					rr := r
+					if nr.schedResults == nil {
+						nr.schedResults = map[string][]*nativeRun{}
+					}
+					nr.schedResults[r.ID] = append(nr.schedResults[r.ID], &rr)
+				}
+			}
+		}
+	}
 	// compare path witnesses
 	for id, p := range pathOf {
 		r := nr.results[id]
@@ -637,6 +717,21 @@ func (nr *nativeResult) confirms(v *Violation) (bool, string) {
 	if r == nil {
 		return false, "no native result"
 	}
+	ok, why := confirmsRun(v, r)
+	if !ok {
+		for _, sr := range nr.schedResults[id] {
+			if ok2, _ := confirmsRun(v, sr); ok2 {
+				return true, ""
+			}
+		}
+		if nr.schedErr != "" {
+			why += "; " + nr.schedErr
+		}
+	}
+	return ok, why
+}
+
+func confirmsRun(v *Violation, r *nativeRun) (bool, string) {
 	switch v.Kind {
 	case "assert":
 		for _, e := range r.Trace {
@@ -655,11 +750,6 @@ func (nr *nativeResult) confirms(v *Violation) (bool, string) {
 			return true, ""
 		}
 		return false, "native run terminated"
-	case "race":
-		if nr.raceSeen[v.Harness] {
-			return true, ""
-		}
-		return false, "go test -race reported no data race for this harness"
 	}
 	return true, ""
 }
